@@ -242,7 +242,7 @@ PROPS = {
                      "str::trim and `!=` on &str are functions of the text (trusted shims)"],
     ),
     "C19": dict(
-        units=["consensus", "store", "outbox"],
+        units=["consensus", "store", "outbox", "snapshot"],
         undecided=["two concurrent clients (lock elision)", "'applied in the primary's order on every node' (replication)"],
         assumptions=["Change::new stamps the resolving change with the wall clock (any u64)"],
     ),
